@@ -27,7 +27,7 @@ Inductive h3wres :=
 | W3 (e : h3err)
 | W3RefusedConn     (* reserved / SETTINGS frame on a request stream: the reader also closes
                        the connection (H3_FRAME_UNEXPECTED) *)
-| W3RefusedStream.  (* DATA or HEADERS after the trailer section *)
+| W3RefusedStream.  (* DATA or HEADERS after the trailer section, oversized SETTINGS frame *)
 
 Definition h3wres_eqb (a b : h3wres) : bool :=
   match a, b with
@@ -102,7 +102,14 @@ Fixpoint h3_wire_loop (fuel : nat) (strict : bool) (rem : option N) (trl : bool)
           if trl then ([], W3RefusedStream)
           else if got <? l then ([], W3 (h3_end_inside strict e))
           else h3_wire_loop f strict rem true s3 e
-        else if (t =? h3t_settings) || h3t_reserved t then ([], W3RefusedConn)
+        else if t =? h3t_settings then
+          (* parseSettingsFrame: over 8 KiB -> an error of the read; payload cut short -> a
+             truncated frame; whole (payload taken to be a valid SETTINGS list) -> the reader
+             refuses the frame and closes the connection *)
+          if 8192 <? l then ([], W3RefusedStream)
+          else if got <? l then ([], W3 (h3_end_inside strict e))
+          else ([], W3RefusedConn)
+        else if h3t_reserved t then ([], W3RefusedConn)
         else if got <? l then ([], W3 (h3_end_inside strict e))     (* io.CopyN runs short *)
         else h3_wire_loop f strict rem trl s3 e
       end
